@@ -1,23 +1,23 @@
 SPECIFICATION Spec
 CONSTANTS
   NOps = 3
-  Kinds = {"pub1", "pub2"}
+  Kinds = {"pub1", "pub2", "huge1"}
   Rmax = 2
-  Msz = 0
+  Msz = 10
   IdN = 3
   MaxIn = 0
   InQos = {}
   InIds = {}
-  Reasons = {0, 128}
+  Reasons = {0}
   MaxCancel = 0
   MaxSpur = 0
   Endings = {"eof", "resume"}
-  SeiSet = {"zero", "finite", "never"}
-  ReR = {2}
-  ReM = {0}
+  SeiSet = {"zero", "never"}
+  ReR = {1, 2, 3}
+  ReM = {0, 10}
   RecordSched = FALSE
   Dev = {}
 VIEW view
 CONSTRAINT Proviso
-INVARIANTS TypeOK Inv_C05 Inv_C06 Inv_C10 Inv_C11 Inv_C17 NoLostWakeup
+INVARIANTS TypeOK Inv_C05 Inv_C06 Inv_C10 Inv_C11 Inv_C12 Inv_C17 NoLostWakeup QuotaRestored
 CHECK_DEADLOCK FALSE
